@@ -163,7 +163,7 @@ def validate(text, ndigits=3, allow_text=False, require_stops=False):
                         bad.append(f"path at {p} uses command {c!r}")
                         break
                 else:
-                    for c, args in cmds:
+                    for c, args in cmds if ndigits is not None else ():
                         idx = range(len(args)) if c != "A" else (0, 1, 2, 5, 6)
                         for k in idx:
                             x = args[k]
